@@ -219,7 +219,7 @@ PROPS = {
     "C12": P("proof", [("field", 4000, 250000)], ["F.*"], rule=RULE),
     "C13": P("proof", [("cmp", 3000, 150000), ("sfcmp", 1000, 50000)], ["SC.*", "S.*"], rule=RULE),
     "C14": P("proof", [("bits", 1500, 100000)], ["SC.bits"], rule=RULE),
-    "C15": P("exploration", [], None, special=[special_mem], rule=RULE +
+    "C15": P("proof", [("memvet", 250, 8000)], ["MEM.vet"], special=[special_mem], rule=RULE +
              "; memory: every slice argument carved out of a sentinel-filled backing array in 7 layouts, backing arrays compared before/after",
              trusted=["Go runtime allocator and escape analysis are not modelled: 'fresh' means not aliasing any buffer the model knows"]),
     "C16": P("other", [], None, special=[special_race],
